@@ -4,7 +4,7 @@
    tools/props/C13.py: the real state-machine thread against the extracted model on the same scripts).
    Quantified over every environment: any receive script (any bytes, chunkings, errors, waits, stops),
    any open and send behaviour, any number of state-machine iterations.                          *)
-From RtrV Require Base.Mem Gen.GeneratedFsm2 Rtr.FsmTie Rtr.FsmTie2 Rtr.ExpiryFrames Rtr.FsmTie3.
+From RtrV Require Base.Mem Gen.GeneratedFsm2 Rtr.FsmTie Rtr.FsmTie2 Rtr.ExpiryFrames Rtr.FsmTie3 Rtr.FsmTie3b Gen.GeneratedFsm3 Base.MemW.
 From RtrV Require Import Base.CSem Gen.Generated Rtr.RtrModel Rtr.VersionProofs Rtr.VersionLocal.
 Local Open Scope Z_scope.
 
@@ -93,9 +93,23 @@ Proof. exact Rtr.FsmTie2.handle_error_tie_world. Qed.
 Example C13_fsm2_translator_clean : Gen.GeneratedFsm2.fsm2_translator_problems = [].
 Proof. reflexivity. Qed.
 
-(* the first-PDU rule itself lives in rtr_receive_pdu: translated on every run (Gen/GeneratedFsm3.v); tied to the model for every world
-   only on the paths before a header is read (C04_receive_pdu_translated_partial); the version rules are TESTED inside Coq on closed
-   scripts - live downgrade on the first PDU, version check afterwards, Error Reports exempt (evaluation, not a theorem) *)
+(* The first-PDU rule itself lives in rtr_receive_pdu: translated on every run (Gen/GeneratedFsm3.v) and, for EVERY world with
+   byte-valued input, proved equal to the model's receive_pdu on all paths that are decided by the header (Rtr/FsmTie3b.v):
+     after_first s h   what the first-PDU logic makes of the socket: has_received_pdus set; version 1 lowered to 0 when the header has
+                       version 0 and is not an Error Report;
+     header_rejects    length < 8, length > maximum, or a version other than the (possibly just lowered) one on a PDU that is not an
+                       Error Report;
+   then: the result, the Error Report sent (Corrupt Data with its texts / Unexpected Protocol Version), the socket's fields and the whole
+   trace are the model's.  A change to the downgrade condition, to has_received_pdus or to the Error Report exemption breaks this proof.
+   Still by evaluation only (FsmTie3 scripts): the paths after a complete payload (size check, footer conversion, success). *)
+Theorem C13_receive_header_phase_translated : forall fuel m len t w h w1,
+  (c_RTR_MAX_PDU_LEN <= len)%Z -> (8 <= zlen m)%Z -> (0 <= st (sk w) < 2^32)%Z -> st (sk w) <> c_RTR_SHUTDOWN ->
+  Rtr.ExpiryFrames.Tm w -> (0 <= version (sk w) < 2^32)%Z ->
+  tr_recv_all 8 t w = Ok (inr h) w1 -> Rtr.FsmTie3b.header_rejects (sk w) h = true ->
+  Rtr.FsmTie3.interp3 fuel (Gen.GeneratedFsm3.rtr_receive_pdu_gen m (Some 0%Z) len t (Rtr.FsmTie.sock_store (sk w))) nil w =
+  Some (Rtr.FsmTie3.as_recv (fun _ => Base.MemW.st_list m 0 h) (receive_pdu t) w).
+Proof. exact Rtr.FsmTie3b.recv_header_phase. Qed.
+
 Example C13_receive_pdu_version_tests := Rtr.FsmTie3.recv_versions.
 
 Print Assumptions C13_initial.
@@ -109,3 +123,4 @@ Print Assumptions C13_enforced.
 Print Assumptions C13_eod_format.
 Print Assumptions C13_sync_translated.
 Print Assumptions C13_error_pdu_translated.
+Print Assumptions C13_receive_header_phase_translated.
